@@ -32,7 +32,9 @@ typedef struct OptAuthError { bool has; AuthError v; } OptAuthError;
 typedef struct InitSaslAuthResult { QXmppSaslClient *saslClient; OptAuthError error; bid initialResponse; } InitSaslAuthResult;
 typedef struct QXmppSasl2UserAgentC { quuid deviceId; sid softwareName; sid deviceName; } QXmppSasl2UserAgentC;
 typedef struct OptUserAgentCfg { bool has; QXmppSasl2UserAgentC v; } OptUserAgentCfg;
-typedef struct Credentials { int gh_unused; } Credentials;
+typedef struct HtTokenC { int gh_unused; } HtTokenC;
+typedef struct OptHtTokenC { bool has; HtTokenC v; } OptHtTokenC;
+typedef struct Credentials { OptHtTokenC htToken; } Credentials;   /* only the presence of the stored FAST token is represented here */
 typedef struct QXmppConfiguration { sid domain; sid user; Credentials credentials; bool useFastTokenAuthentication; OptUserAgentCfg sasl2UserAgent; } QXmppConfiguration;
 typedef struct UserAgentC { quuid id; sid software; sid device; } UserAgentC;
 typedef struct OptUserAgent { bool has; UserAgentC v; } OptUserAgent;
@@ -59,6 +61,9 @@ int gh_ready_tasks; AuthError gh_ready_error; qtask gh_ready_task;
 int gh_promises; qpromise gh_last_promise;
 sid __CPROVER_uninterpreted_mech_name(int index, int scram, int hash, int cb);
 #define FAST_USABLE (feature->fast.has && config->useFastTokenAuthentication && config->sasl2UserAgent.has)
+/* without a stored token no FAST (HT) mechanism is usable (isMechanismAvailable, verified), so whether the FAST mechanisms are handed to the
+   negotiation then cannot change its outcome: the contract leaves that case open */
+#define TOKEN_STORED (config->credentials.htToken.has)
 #define SENT_SASL_AUTH 1
 #define SENT_SASL2_AUTHENTICATE 2
 #define MECH_NAME(m) __CPROVER_uninterpreted_mech_name((m).index, (m).index == SaslMechanism_IDX_SaslScramMechanism ? (m).alt_SaslScramMechanism.algorithm : 0, \
